@@ -24,7 +24,8 @@ class PollBudgetExceeded(BaseException):
   pass
 
 
-CANDIDATE_STUDIES = [O.study_name(o, d) for o in (0, 1) for d in (0, 1, 2)]
+def candidate_studies():
+  return [O.study_name(o, d) for o in (0, 1) for d in (0, 1, 2)]
 
 
 def state_of(sv):
@@ -32,7 +33,7 @@ def state_of(sv):
   # Also address every candidate study directly: a study row that exists but is
   # not reachable through its owner's listing must not go unnoticed.
   direct = {}
-  for name in CANDIDATE_STUDIES:
+  for name in candidate_studies():
     g = O.call(sv.GetStudy, O.vs.GetStudyRequest(name=name))
     direct[name] = O.nstudy(g[1]) if g[0] == 'ok' else ('err', g[1])
     if g[0] == 'ok' and name not in snap['studies']:
@@ -101,6 +102,7 @@ class C05(runner.Check):
         'space': rng.choice(['int10', 'mixed']), 'metrics': 1, 'recycle_s': 60.0,
         'epoch': simclock.EPOCH + rng.randrange(10**6),
     }
+    cfg['id_rot'] = rng.randrange(len(O.STUDY_IDS))  # which adversarial id the main study carries
     faults = []
     if rng.random() < 0.4:
       faults.append({'site': 'suggest', 'at': rng.randrange(1, 5), 'kind': rng.choice(['deliver:+1', 'deliver:+2'])})
